@@ -430,8 +430,12 @@ func check(c *runCfg) int {
 	for _, s := range vacuous {
 		fmt.Printf("INCONCLUSIVE property=%s harness %s is vacuous: no path reaches its end\n", c.prop, s)
 	}
+	seenInt := map[string]int{}
 	for _, s := range internal {
-		fmt.Printf("INCONCLUSIVE property=%s engine error: %s\n", c.prop, s)
+		seenInt[s]++
+		if seenInt[s] == 1 {
+			fmt.Printf("INCONCLUSIVE property=%s engine error: %s\n", c.prop, s)
+		}
 	}
 	if len(results) == 0 {
 		fmt.Printf("INCONCLUSIVE property=%s no harness found\n", c.prop)
